@@ -12,9 +12,7 @@ for p in $props; do
   for m in selftest/mutants/$p/*.patch; do
     [ -f "$m" ] || continue
     d=$(mktemp -d /tmp/kvmut.XXXXXX)
-    git -C /repo archive HEAD | tar -x -C "$d"
-    # include uncommitted contract files etc. of the working tree
-    (cd /repo && git diff HEAD) | (cd "$d" && git apply --allow-empty 2>/dev/null || true)
+    rsync -a --exclude .git /repo/ "$d/"
     if ! (cd "$d" && git apply "/verif/$m" 2>/dev/null || patch -p1 -s < "/verif/$m"); then
       echo "SELFTEST-ERROR $m does not apply"; fail=1; rm -rf "$d"; continue
     fi
